@@ -53,8 +53,10 @@ def make_ops(rng, cfg, profile, tier):
             ops.append({'op': 'LLD', 'a': [rng.randrange(1 << 16)]})
         elif r < 0.45:
             ops.append({'op': 'CHANGE_INIT', 'a': [rng.randrange(1 << 16), rng.random() < 0.5]})
-        elif r < 0.57:
+        elif r < 0.53:
             ops.append({'op': 'EVAL_C', 'a': [rng.randrange(1 << 16)]})
+        elif r < 0.57:
+            ops.append({'op': 'EVAL_KEEP', 'a': [rng.randrange(1 << 16), rng.randrange(1 << 16)]})
         elif r < 0.69:
             ops.append({'op': 'SIMULATE', 'a': [rng.randrange(1 << 16)]})
         elif r < 0.8:
@@ -248,6 +250,39 @@ class Session:
             self.cmp('get_value_c with a partial dictionary vs the store', got[0], want, rel=rel, oracle='I03.store')
             if len(chosen) < len(free):
                 ctx.probe('partial dictionary')
+            ctx.log(kind, sorted(over.items()))
+        elif kind == 'EVAL_KEEP':
+            # the formula keeps the numbering of its BIOGEME object (prepare_ids=False): an evaluation at an explicit
+            # point, then one with a partial dictionary - parameters that are not named take their own value, not the
+            # one left behind by the previous evaluation
+            x = self.point(a[0])
+            rng = random.Random(a[1])
+            free = self.free_names()
+            chosen = rng.sample(free, rng.randrange(0, len(free)))
+            over = {n: round(self.store[n]['value'] + rng.uniform(-0.5, 0.5), 4) for n in chosen}
+            want1, _, _ = self.ref_ll_unweighted(self.values(x))
+            want2, _, _ = self.ref_ll_unweighted(self.values(over))
+
+            def two(u):
+                for f_ in u.b.formulas.values():
+                    f_.set_id_manager(u.b.id_manager)
+                v1 = float(u.ll.get_value_c(database=u.db, betas={u.nm(n): v for n, v in x.items()}, aggregation=True,
+                                            prepare_ids=False))
+                v2 = float(u.ll.get_value_c(database=u.db, betas={u.nm(n): v for n, v in over.items()}, aggregation=True,
+                                            prepare_ids=False))
+                return v1, v2
+            (a1, a2), (b1, b2) = self.both(two)
+            rel = 1e-10 if self.tol == 0 else 1e-6
+            self.cmp('evaluation at an explicit point under the two namings', a1, b1)
+            self.cmp('evaluation at an explicit point vs the store', a1, want1, oracle='I03.store')
+            self.cmp('evaluation with a partial dictionary after another evaluation, under the two namings', a2, b2, rel=rel)
+            self.cmp('evaluation with a partial dictionary after another evaluation vs the store', a2, want2, rel=rel,
+                     oracle='I03.store')
+            ctx.probe('partial dictionary after an evaluation at other values (numbering kept)')
+            # observation O6 (DESIGN): an evaluation of a bound formula with prepare_ids=False stores its point in the
+            # object's own list of starting values; later by-name operations use a new object
+            for u in self.U:
+                u.rebuild()
             ctx.log(kind, sorted(over.items()))
         elif kind == 'SIMULATE':
             x = self.point(a[0])
